@@ -588,6 +588,10 @@ def iterate(I, it, node):
             and isinstance(it[1], list):
         return it[1]
     it = concrete(it) if is_concrete(it) else it
+    if type(it).__name__ == 'AIter':
+        rest = it.items[it.pos:]
+        it.pos = len(it.items)
+        return list(rest)
     if isinstance(it, (tuple, list, range)):
         return list(it)
     if isinstance(it, frozenset):
